@@ -543,6 +543,10 @@ func c08GraphUnit() *Unit {
 				"inc.yml": "version: '3'\ntasks:\n  t:\n    cmds:\n      - task: ':rb'\n  u:\n    deps: [':rb']\n"}, "inc:u", []string{"T=root:rootbuild PWD=proj IV="}, 0},
 			{"root-name-from-included-call", map[string]string{"Taskfile.yml": "version: '3'\nincludes:\n  inc: ./inc.yml\ntasks:\n  rootbuild:\n    aliases: [rb]\n    cmds:\n" + c08Line("root", "rootbuild"),
 				"inc.yml": "version: '3'\ntasks:\n  t:\n    cmds:\n      - task: ':rootbuild'\n"}, "inc:t", []string{"T=root:rootbuild PWD=proj IV="}, 0},
+			{"nested-map-form-include-without-dir-in-subdirectory", map[string]string{"Taskfile.yml": "version: '3'\nincludes:\n  mid: ./sub/mid.yml\n",
+				"sub/mid.yml": "version: '3'\nincludes:\n  leaf:\n    taskfile: ./leaf.yml\n    aliases: [l]\n", "sub/leaf.yml": leaf("leaf")}, "mid:leaf:t", []string{"T=leaf:t PWD=sub IV="}, 0},
+			{"nested-map-form-include-without-dir-in-subdirectory-via-alias", map[string]string{"Taskfile.yml": "version: '3'\nincludes:\n  mid: ./sub/mid.yml\n",
+				"sub/mid.yml": "version: '3'\nincludes:\n  leaf:\n    taskfile: ./leaf.yml\n    aliases: [l]\n", "sub/leaf.yml": leaf("leaf")}, "mid:l:t", []string{"T=leaf:t PWD=sub IV="}, 0},
 			{"cycle-2", map[string]string{"Taskfile.yml": "version: '3'\nincludes:\n  a: ./a.yml\n", "a.yml": "version: '3'\nincludes:\n  r: ./Taskfile.yml\n"}, "x", nil, 110},
 			{"cycle-3", map[string]string{"Taskfile.yml": "version: '3'\nincludes:\n  a: ./a.yml\n", "a.yml": "version: '3'\nincludes:\n  b: ./b.yml\n", "b.yml": "version: '3'\nincludes:\n  a: ./a.yml\n"}, "x", nil, 110},
 			{"self-include", map[string]string{"Taskfile.yml": "version: '3'\nincludes:\n  me: ./Taskfile.yml\n"}, "x", nil, 110},
